@@ -45,7 +45,17 @@ func ruleCacheInv(w *World, r *Report) {
 			layer = append(layer, fn)
 		}
 	}
+	// setsOnly: an entry of the fact map is set (inserted or replaced).  A removal (delete, wholesale reset) needs no
+	// invalidation of its own as long as every set invalidates: the cache is only ever consulted for ids that the
+	// rule index just produced, so an entry for an id that has no fact is never looked at, and the set that brings
+	// the id back drops it.  The rule is first run over all writes; what is uncovered then is a violation only if
+	// it is also uncovered when removals are left out (a removal without invalidation next to a set without one).
+	setsOnly := false
 	isMemWrite := func(owner string, in ssa.Instruction) bool {
+		if setsOnly {
+			mu, ok := in.(*ssa.MapUpdate)
+			return ok && isFieldLoad(mu.Map, owner, factField[owner])
+		}
 		if writesThroughField(in, owner, factField[owner]) {
 			return true
 		}
@@ -67,6 +77,7 @@ func ruleCacheInv(w *World, r *Report) {
 	// alwaysInv[f]: every path from entry to a return passes an invalidation
 	alwaysInv := map[*ssa.Function]bool{}
 	needs := map[*ssa.Function]ssa.Instruction{} // function -> an uncovered memory-write event
+	var setNeeds map[*ssa.Function]ssa.Instruction
 	sameOwnerCallee := func(owner string, in ssa.Instruction) *ssa.Function {
 		if c := callOf(in); c != nil {
 			if f := c.StaticCallee(); f != nil {
@@ -77,50 +88,86 @@ func ruleCacheInv(w *World, r *Report) {
 		}
 		return nil
 	}
-	for changed := true; changed; {
-		changed = false
-		for _, fn := range layer {
-			owner, _ := stateOwnerOf(a, fn)
-			isC := func(in ssa.Instruction) bool {
-				if isCacheInv(owner, in) {
-					return true
+	for pass := 0; pass < 2; pass++ {
+		if pass == 0 {
+			setsOnly = true
+		} else {
+			setsOnly = false
+			setNeeds = needs
+			needs = map[*ssa.Function]ssa.Instruction{}
+		}
+		for changed := true; changed; {
+			changed = false
+			for _, fn := range layer {
+				owner, _ := stateOwnerOf(a, fn)
+				isC := func(in ssa.Instruction) bool {
+					if isCacheInv(owner, in) {
+						return true
+					}
+					if f := sameOwnerCallee(owner, in); f != nil && alwaysInv[f] {
+						return true
+					}
+					return false
 				}
-				if f := sameOwnerCallee(owner, in); f != nil && alwaysInv[f] {
-					return true
+				if !alwaysInv[fn] {
+					if h, _ := reach(fn, nil, isExit, isC, nil); h == nil {
+						alwaysInv[fn], changed = true, true
+					}
 				}
-				return false
+				// uncovered memory writes
+				var uncovered ssa.Instruction
+				allInstrs(fn, func(in ssa.Instruction) {
+					if uncovered != nil {
+						return
+					}
+					isM := isMemWrite(owner, in)
+					if f := sameOwnerCallee(owner, in); f != nil && f != fn && needs[f] != nil {
+						isM = true
+					}
+					if !isM {
+						return
+					}
+					// covered if C precedes on every path from entry, or follows on every path to exit
+					if h, _ := reach(fn, nil, func(x ssa.Instruction) bool { return x == in }, isC, nil); h == nil {
+						return
+					}
+					if h, _ := reach(fn, in, isExit, isC, nil); h == nil {
+						return
+					}
+					uncovered = in
+				})
+				if (uncovered != nil) != (needs[fn] != nil) {
+					needs[fn] = uncovered
+					changed = true
+				}
 			}
-			if !alwaysInv[fn] {
-				if h, _ := reach(fn, nil, isExit, isC, nil); h == nil {
-					alwaysInv[fn], changed = true, true
-				}
+		}
+	}
+	// any set without invalidation, anywhere in the layer (sets-only pass)?
+	setUncovered := false
+	for _, fn := range layer {
+		if setNeeds[fn] == nil {
+			continue
+		}
+		if fn.Name() == "Load" {
+			continue
+		}
+		outside := false
+		ncall := 0
+		owner, _ := stateOwnerOf(a, fn)
+		for _, e := range w.Callers(fn) {
+			cf := e.Caller.Func
+			if isTestFile(w, cf) || cf.Synthetic != "" {
+				continue
 			}
-			// uncovered memory writes
-			var uncovered ssa.Instruction
-			allInstrs(fn, func(in ssa.Instruction) {
-				if uncovered != nil {
-					return
-				}
-				isM := isMemWrite(owner, in)
-				if f := sameOwnerCallee(owner, in); f != nil && f != fn && needs[f] != nil {
-					isM = true
-				}
-				if !isM {
-					return
-				}
-				// covered if C precedes on every path from entry, or follows on every path to exit
-				if h, _ := reach(fn, nil, func(x ssa.Instruction) bool { return x == in }, isC, nil); h == nil {
-					return
-				}
-				if h, _ := reach(fn, in, isExit, isC, nil); h == nil {
-					return
-				}
-				uncovered = in
-			})
-			if (uncovered != nil) != (needs[fn] != nil) {
-				needs[fn] = uncovered
-				changed = true
+			ncall++
+			if o2, ok := stateOwnerOf(a, cf); !ok || o2 != owner {
+				outside = true
 			}
+		}
+		exported := fn.Object() != nil && fn.Object().Exported() && fn.Parent() == nil
+		if outside || (ncall == 0 && exported) || (exported && implementsStateMethod(a, fn)) {
+			setUncovered = true
 		}
 	}
 	exemptLoad := "Load populates a state that has not dispatched any event yet (the cache is empty: it is filled only by FindCachedRules on a loaded state)"
@@ -163,6 +210,10 @@ func ruleCacheInv(w *World, r *Report) {
 		if outside || (ncall == 0 && exported) || (exported && implementsStateMethod(a, fn)) {
 			if fn.Name() == "Load" {
 				r.exempt("CACHE-INV", key, w.PosOf(needs[fn]), exemptLoad)
+				continue
+			}
+			if setNeeds[fn] == nil && !setUncovered {
+				r.ok("CACHE-INV", key, w.PosOf(needs[fn]), "a removal without an invalidation of its own: every path that sets a fact invalidates, so an entry left behind for a removed id is never looked at and goes when the id comes back")
 				continue
 			}
 			r.violation("CACHE-INV", key, w.PosOf(needs[fn]), "the fact map is written on a path that never invalidates the parsed-rule cache")
